@@ -280,7 +280,9 @@ class Schedule:  # 0404
 
         is_dated, did_io = await self._is_dated(force_io=force_io)
         if is_dated:
-            self._full_schedule = {}  # keep frags, maybe only other scheds have changed
+            self._full_schedule = {}
+            # don't keep the frags: a changed schedule can have an unchanged 1st fragment
+            self._payload_set = list(EMPTY_PAYLOAD_SET)
         if self._full_schedule:
             return
 
